@@ -17,6 +17,9 @@ EXTENDS CtapCodec, FiniteSets
 
 LNone == << >>
 
+\* a member with the type it has IN CONFIGURATION F (capacities may depend on the features)
+MemberF(s, F, nm) == LET ms == Schema(s, F) IN ms[CHOOSE i \in 1..Len(ms) : ms[i].name = nm]
+
 Min2(a, b) == IF a <= b THEN a ELSE b
 
 \* opaque bytes that LOOK like something: a DER SEQUENCE header announcing fewer bytes than
@@ -24,13 +27,17 @@ Min2(a, b) == IF a <= b THEN a ELSE b
 DerLike(n)  == IF n >= 4 THEN <<48, 130, 0, 2>> \o Rep(170, n - 4) ELSE Rep(48, n)
 DerShort(n) == IF n >= 3 THEN <<48, 129, 1>> \o Rep(187, n - 3) ELSE Rep(48, n)
 CborLike(n) == IF n >= 2 THEN <<162, 1>> \o Rep(246, n - 2) ELSE Rep(160, n)
+\* contents whose LAST bytes look like an encoding of their own: an empty map after a zero, a
+\* break, a null (code that recognises a situation by looking at the tail of the output)
+TailLike(n, tail) == IF n >= Len(tail) THEN Rep(1, n - Len(tail)) \o tail ELSE Rep(160, n)
+Tails == {<<0, 160>>, <<160>>, <<255>>, <<246>>, <<0>>}
 
 ByteLens(max) == IF max < 0 THEN {0, 1, 23, 24, 255, 256, 300}
                  ELSE {n \in {0, 1, 23, 24, 255, 256} : n <= max} \cup {max}
 BytesAlts(max) ==
     {Pattern(40, n) : n \in ByteLens(max)}
     \cup (LET m == IF max < 0 THEN 40 ELSE Min2(max, 40) IN
-          {DerLike(m), DerShort(m), CborLike(m), Rep(255, m), Rep(0, m)})
+          {DerLike(m), DerShort(m), CborLike(m), Rep(255, m), Rep(0, m)} \cup {TailLike(m, t) : t \in Tails})
 
 Euro == <<226, 130, 172>>
 TextLens(max) == IF max < 0 THEN {0, 1, 23, 24, 255, 256, 300}
@@ -39,7 +46,7 @@ TextAlts(max) ==
     {AsciiPattern(41, n) : n \in TextLens(max)}
     \cup (IF max < 0 \/ max >= 6 THEN {Euro \o Euro, <<0>>, <<127>> \o EncodeScalar(128512)} ELSE {})
 
-UIntAlts32 == {BN(0), BN(1), BN(23), BN(24), BN(255), BN(256), BN(65535), BN(65536), BNMaxU32}
+UIntAlts32 == {BN(0), BN(1), BN(23), BN(24), BN(255), BN(256), BN(65535), BN(65536), BN(65696), BNMaxU32}     \* 65696 = 0x0100A0
 UIntAlts64 == UIntAlts32 \cup {BNSucc(BNMaxU32), BNMaxU64}
 I32Alts == {-2147483647 - 1, -65537, -257, -25, -24, -8, -7, -1, 0, 23, 24, 255, 65536, 2147483647}
 
@@ -72,7 +79,7 @@ DefaultOf(ty, F, host) ==
 
 MinOf(s, F, host) ==
     [nm \in AllNames(s) |->
-        LET m == MemberByName(s, F, nm) IN
+        LET m == MemberF(s, F, nm) IN
         IF m.req /\ (m.feat = "" \/ m.feat \in F) THEN DefaultOf(m.ty, F, host) ELSE LNone]
 
 \* how a value of a member is stored in its parent
@@ -95,7 +102,7 @@ Alts(ty, F, host) ==
       [] ty.t = "bool" -> BOOLEAN
       [] ty.t = "unit" -> {<< >>}
       [] ty.t = "bytes" -> BytesAlts(ty.max)
-      [] ty.t = "bytesExact" -> {Pattern(43, ty.n), Rep(0, ty.n), Rep(255, ty.n), DerLike(ty.n), CborLike(ty.n)}
+      [] ty.t = "bytesExact" -> {Pattern(43, ty.n), Rep(0, ty.n), Rep(255, ty.n), DerLike(ty.n), CborLike(ty.n), TailLike(ty.n, <<0, 160>>)}
       [] ty.t = "str" -> TextAlts(ty.max)
       [] ty.t = "strTrunc" -> IF host THEN TextAlts(-1) \cup {AsciiPattern(41, n) : n \in {63, 64, 65}} ELSE TextAlts(ty.L)
       [] ty.t = "strSkip" -> IF host THEN TextAlts(-1) \cup {AsciiPattern(41, n) : n \in {127, 128, 129}} ELSE TextAlts(ty.L)
@@ -130,7 +137,7 @@ Alts(ty, F, host) ==
 \* every member present with its default value
 FullOfDefaults(s, F, host) ==
     [nm \in AllNames(s) |->
-        LET m == MemberByName(s, F, nm) IN
+        LET m == MemberF(s, F, nm) IN
         IF m.feat # "" /\ m.feat \notin F THEN LNone
         ELSE IF ~(m.ser \/ host) THEN LNone
         ELSE WrapFor(m, DefaultOf(InnerTy(m.ty), F, host))]
@@ -163,6 +170,35 @@ Extremes(ty, F, host) ==
       [] ty.t = "empty" -> {<< >>}
       [] ty.t \in {"opt", "some"} -> Extremes(ty.i, F, host)
 
+\* the lower end of a type's range
+RECURSIVE DefaultLow(_, _, _)
+DefaultLow(ty, F, host) ==
+    CASE ty.t = "u8" -> 0
+      [] ty.t \in {"u32", "u64"} -> BN(0)
+      [] ty.t = "i32" -> -2147483647 - 1
+      [] ty.t = "bool" -> FALSE
+      [] ty.t = "bytesExact" -> Rep(0, ty.n)
+      [] ty.t = "strSkip" -> AsciiPattern(51, IF host THEN ty.L + 1 ELSE 0)
+      [] ty.t = "enumU8" -> CHOOSE x \in ty.set : \A y \in ty.set : x <= y
+      [] ty.t \in {"struct", "indexed"} -> MinOf(ty.s, F, host)
+      [] ty.t = "attStmt" -> [packed |-> FALSE, alg |-> 0, sig |-> << >>, x5c |-> << >>]
+      [] ty.t \in {"opt", "some"} -> DefaultLow(ty.i, F, host)
+      [] OTHER -> << >>
+
+\* the upper end alone
+ExtHigh(ty, F, host) ==
+    LET e == Extremes(ty, F, host) IN
+    IF Cardinality(e) = 1 THEN CHOOSE x \in e : TRUE
+    ELSE CHOOSE x \in e : x # DefaultLow(ty, F, host)
+
+\* every member present at the upper end of its type: the LARGEST value of the schema
+FullOfHighs(s, F, host) ==
+    [nm \in AllNames(s) |->
+        LET m == MemberF(s, F, nm) IN
+        IF m.feat # "" /\ m.feat \notin F THEN LNone
+        ELSE IF ~(m.ser \/ host) THEN LNone
+        ELSE WrapFor(m, ExtHigh(InnerTy(m.ty), F, host))]
+
 \* the minimal value with every PAIR of members set to every combination of their extremes
 TwoAtATime(s, F, host) ==
     LET min == MinOf(s, F, host)
@@ -170,7 +206,15 @@ TwoAtATime(s, F, host) ==
     IN  UNION {UNION {{[min EXCEPT ![ms[i].name] = WrapFor(ms[i], a), ![ms[j].name] = WrapFor(ms[j], b)] :
                           a \in Extremes(InnerTy(ms[i].ty), F, host), b \in Extremes(InnerTy(ms[j].ty), F, host)}
                       : j \in (i + 1)..Len(ms)} : i \in 1..Len(ms)}
-       \cup {FullOfDefaults(s, F, host)}
+       \cup {FullOfDefaults(s, F, host), FullOfHighs(s, F, host)}
+
+\* the minimal value with every TRIPLE of members at the upper end of their types
+ThreeAtATime(s, F, host) ==
+    LET min == MinOf(s, F, host)
+        ms  == SelectSeq(Members(s, F), LAMBDA m : m.ser \/ host)
+        hi(i) == WrapFor(ms[i], ExtHigh(InnerTy(ms[i].ty), F, host))
+    IN  UNION {UNION {{[min EXCEPT ![ms[i].name] = hi(i), ![ms[j].name] = hi(j), ![ms[k].name] = hi(k)]
+                          : k \in (j + 1)..Len(ms)} : j \in (i + 1)..Len(ms)} : i \in 1..Len(ms)}
 
 \* a list of n default entries with one different entry at position k
 ListWithOddOneAt(ety, n, k, odd, F, host) == [i \in 1..n |-> IF i = k THEN odd ELSE DefaultOf(ety, F, host)]
